@@ -18,9 +18,9 @@ prop("C04", "No false success: a failure in any file fails the whole run",
      not_decided=["that the OS reports a fault at all (ENOSPC through BufWriter surfaces at flush, which R04.2 covers)",
                   "the schedule dimension: which worker result arrives first is a runtime fact"])
 
-CARRIER_RE = re.compile(r"(error_stack::(report::)?Report<|std::io::Error|dyn std::error::Error|txtpp::core::execute::TaskResult|"
-                        r"txtpp::error::(PathError|PpError|TxtppError)|std::env::VarError|which::Error|std::sync::mpsc::(Send|TryRecv|Recv)Error|"
-                        r"std::fmt::Error|txtpp::fs::shell::ShellError|TagStateError)")
+CARRIER_RE = re.compile(r"(error_stack::(report::)?Report<|std::io::Error|dyn std::error::Error|(::|^)TaskResult\b|"
+                        r"(::|^)(PathError|PpError|TxtppError)\b|std::env::VarError|which::Error|std::sync::mpsc::(Send|TryRecv|Recv)Error|"
+                        r"std::fmt::Error|(::|^)ShellError\b|TagStateError)")
 
 
 def split_generic(ty):
@@ -91,21 +91,21 @@ def _g_after_join(ctx, b, bb):
 
 
 TOLERATED = [
-    (r".*", r"^txtpp::core::util::progress::Progress::(print_status|add_total|add_done|update_progress|update_progress_internal)$",
+    (r".*", r"(^|::)Progress::(print_status|add_total|add_done|update_progress|update_progress_internal)$",
      "cosmetic terminal output (progress display); failure to print must not fail the build", None),
-    (r"^txtpp::core::util::dependency::print_dep_map$", r"^std::fmt::Write::write_fmt$",
+    (r"(^|::)print_dep_map$", r"^std::fmt::Write::write_fmt$",
      "fmt::Write on a String cannot fail", None),
-    (r"^<txtpp::core::execute::Txtpp as std::ops::Drop>::drop$", r"^std::sync::mpsc::Receiver::<T>::try_recv$",
+    (r"(::|<)Txtpp as std::ops::Drop>::drop$", r"^std::sync::mpsc::Receiver::<T>::try_recv$",
      "results still in flight after an error has already been returned are drained and ignored", _g_after_join),
-    (r"^txtpp::core::execute::pp::Pp::<'a>::", r"^txtpp::core::execute::pp::Pp::<'a>::(execute_in_clean_mode|execute_directive_temp)$",
+    (r"(^|::)Pp::<'a>::", r"(^|::)Pp::<'a>::(execute_in_clean_mode|execute_directive_temp)$",
      "clean tolerates directive errors (README: clean succeeds on erroneous sources)", _g_clean_mode),
-    (r"^txtpp::fs::io_context::IOCtx::write_temp_file$", r"^txtpp::fs::path::abs_path::AbsPath::try_resolve$",
+    (r"(^|::)IOCtx::write_temp_file$", r"(^|::)AbsPath::try_resolve$",
      "clean: a temp target that does not exist is simply not removed", _g_clean_mode),
     (r"ignore_err_if_cleaning$", r"^param:self$",
      "clean tolerates directive errors: the swallowed error is dropped", _g_clean_mode),
     (r"^txtpp::main$", r"^std::env::var$", "TXTPP_FILE unset is the normal case", None),
     (r"^txtpp::main$", r"^txtpp::txtpp$", "the error was already printed by txtpp(); main maps it to ExitCode::FAILURE (R04.5)", None),
-    (r"^txtpp::fs::shell::resolve_shell$", r"^which::which$",
+    (r"(^|::)resolve_shell$", r"^which::which$",
      "falls back to the literal name, which is then canonicalised and fails loudly if absent", None),
 ]
 
